@@ -586,6 +586,11 @@ class InvalidateAttrs(SpecArgs):
                     is_str(kj), z3.Or(kj == a, z3.And(direct_dep(eng, pre, o, a, kj), reach(m, a, kj))))),
                     patterns=[kj] if pattern_ok(p.arr) else [])),
                 ("done", z3.ForAll([j], z3.Implies(z3.And(j >= 0, j < i, kj != a), cleared(eng, st, o, kj)))),
+                ("done-below", z3.ForAll([j, k], z3.Implies(z3.And(j >= 0, j < i, kj != a, reach(m, kj, k)), cleared(eng, st, o, k)),
+                                        patterns=[z3.MultiPattern(kj, reach(m, kj, k))] if pattern_ok(p.arr) else [])),
+                # the enumeration misses no direct dependant
+                ("complete", z3.ForAll([k], z3.Implies(z3.And(is_str(k), direct_dep(eng, pre, o, a, k)), z3.And(
+                    p.pos(kn(k)) >= 0, p.pos(kn(k)) < p.n, z3.Select(p.arr, p.pos(kn(k))) == k)))),
                 ("frame", inv_frame(eng, pre, st, o, a)),
                 ("monotone", monotone(eng, pre, st, o)),
                 ("map", st.env["invalidation_map"] == lc.pre.env["invalidation_map"])]
@@ -612,6 +617,10 @@ def assume_reach(eng, st, v):
         is_str(a), is_str(k), a != k,
         # dependants are attribute names, never the library's own bookkeeping slots
         k != STR.val("__spec_class__"), k != STR.val("__spec_class_initializing__"))), patterns=[reach(m, a, k)]))
+    # ... and only those: a transitive dependant is a direct one, or is reached through a direct one (first edge of the path)
+    mid = reach_mid(m, a, k)
+    st.assume(z3.ForAll([a, k], z3.Implies(reach(m, a, k), z3.Or(
+        direct_dep(eng, st, v, a, k), z3.And(is_str(mid), direct_dep(eng, st, v, a, mid), reach(m, mid, k)))), patterns=[reach(m, a, k)]))
     # A-ACYCLIC: the dependency graph declared by invalidated_by has no cycle (on cyclic graphs the recursion does not terminate)
 
 
@@ -649,10 +658,11 @@ def monotone(eng, pre, post, obj, but=None):
 
 
 def all_cleared(eng, pre, post, obj, tgt, attr):
-    """every *direct* dependant of attr is cleared on tgt (chains: recursion through __delattr__, whose own
-    contract clears its direct dependants; the transitive statement is exercised by the bounded stand-in)"""
+    """every *transitive* dependant of attr is cleared on tgt (the recursion through __delattr__ / invalidate_attrs is verified
+    against these very contracts: partial correctness; termination needs an acyclic dependency graph, A-ACYCLIC)"""
     k = z3.Const("k!ac", Val)
-    return z3.ForAll([k], z3.Implies(z3.And(is_str(k), direct_dep(eng, pre, obj, attr, k)), cleared(eng, post, tgt, k)))
+    m = named(post, meta_of(eng, pre, obj), "meta")
+    return FA([k], z3.Implies(reach(m, attr, k), cleared(eng, post, tgt, k)), [reach(m, attr, k)])
 
 
 @register
